@@ -185,17 +185,39 @@ def end_justified(ctx, rule='C08.end-justified'):
                     at = fn.term(a)
                     if at['k'] != 'switch':
                         continue
-                    _, atoms = du.slice_operand(at['discr'])
-                    for x in atoms:
-                        if x[0] != 'call':
-                            continue
-                        nm = last_seg(strip_generics(x[2]))
-                        ct = fn.term(x[1])
-                        cc = callee_of(ct)
-                        if nm in CMP and cc and cc.get('trait') in ('std::cmp::PartialOrd', 'std::cmp::Ord', 'std::cmp::PartialEq'):
-                            just.append('comparison at %s' % fn.loc(x[1]))
-                        elif nm in ('next', 'current') and cc and 'Cursor' in (cc.get('self_ty') or ''):
-                            just.append('cursor %s at %s' % (nm, fn.loc(x[1])))
+                    # judged on the expression tree of the test itself (a flow-insensitive slice would also see the `next()` calls that merely moved the cursor)
+                    e = du.sym(at['discr'])
+
+                    def walk(x, depth=0):
+                        if depth > 12 or not isinstance(x, tuple):
+                            return
+                        if x[0] == 'call':
+                            nm = last_seg(strip_generics(x[1]))
+                            if nm in CMP and ('cmp::Partial' in x[1] or 'cmp::Ord' in x[1]):
+                                just.append('a key comparison')
+                                return
+                            if nm == 'next' and ('Iterator' in x[1] or 'Cursor' in x[1]):
+                                # (`current()` being None is no evidence of the end: it is None on a leaf emptied in this transaction; `next()` skips those)
+                                just.append('the end of the cursor (next() returned None)')
+                                return
+                            if nm in ('branch', 'deref', 'as_ref', 'clone', 'not', 'into', 'from'):
+                                for y in x[2]:
+                                    walk(y, depth + 1)
+                            return
+                        if x[0] in ('discr', 'un'):
+                            walk(x[-1], depth + 1)
+                        elif x[0] == 'bin':
+                            walk(x[2], depth + 1)
+                            walk(x[3], depth + 1)
+                        elif x[0] == 'field':
+                            walk(x[1], depth + 1)
+                        elif x[0] == 'phi':
+                            # a flag assigned in several places (`let in_range = match .. { .. }`): fall back to the slice for comparisons only
+                            _, atoms = du.slice_local(x[1])
+                            for a in atoms:
+                                if a[0] == 'call' and last_seg(strip_generics(a[2])) in CMP and ('cmp::Partial' in a[2] or 'cmp::Ord' in a[2]):
+                                    just.append('a key comparison')
+                    walk(e)
                 where = fn.loc(bb, si) if si is not None else fn.loc(bb)
                 if just:
                     res.append(ok(rule, 'None at %s follows %s' % (where, just[0]), sites=1))
@@ -454,6 +476,27 @@ def seek_reset(ctx, rule='C08.seek-reset'):
     f = floor(rule, 'functions installing a new cursor stack', n, 1)
     if f:
         res.append(f)
+    # every other piece of iteration state that `next` writes (an `exhausted` / `done` fuse ...) must be re-initialised by whoever installs a new stack
+    nx = ctx.A.get('<Cursor as Iterator>::next')
+    cur = F.adt('Cursor')
+    if nx is not None and cur is not None:
+        X = ctx.x(nx)
+        flags = [f0['name'] for f0 in cur['variants'][0]['fields'] if f0['ty'] == 'bool' and f0['name'] != 'writable']
+        written = {fl for fl in flags if stores_to_field(X, 'Cursor', fl)}
+        for fn in F.fns:
+            if fn.name == 'new' or not stores_to_field(fn, 'Cursor', 'stack') or fn.trait:
+                continue
+            Y = ctx.x(fn)
+            for fl in sorted(written):
+                st = [bb for bb, si, s2 in stores_to_field(Y, 'Cursor', fl)]
+                rets = [b for b in Y.reach_from([0], avoid=set(st)) if Y.term(b)['k'] == 'return']
+                if st and not rets:
+                    continue
+                if fl == 'next_called':
+                    continue      # reported above
+                res.append(bad(rule, '%s | new stack without resetting Cursor.%s' % (fn.qual, fl),
+                               '%s installs a new search stack but can return without resetting the iteration flag `%s`, which Cursor::next sets: a cursor that was run to '
+                               'its end and is then re-positioned keeps behaving as exhausted' % (fn.qual, fl), where='%s:%d' % (fn.file, fn.line)))
     return res
 
 
